@@ -1,6 +1,8 @@
 import pandas as pd
 
 from reamber.base import Map
+from reamber.base.lists.notes.HitList import HitList
+from reamber.base.lists.notes.HoldList import HoldList
 
 
 def dominant_bpm(m: Map):
@@ -15,23 +17,19 @@ def dominant_bpm(m: Map):
     Returns:
         The dominant BPM as a np.float64
     """
-    s = m.stack()
+    # Tempo points in time order, paired with their own bpm; the last object is the
+    # last note (tempo and SV rows are not objects), and no tempo point is active after it.
+    bpms = m.bpms.sorted()
+    notes = m.stack((HitList, HoldList)).offset
+    # A chart without notes ends at its last event
+    last = notes.max() if len(notes) else m.stack().offset.max()
     return (
-        pd
-        # Append the last object offset of the note to the bpm offsets
-        .concat([m.bpms.offset, pd.Series(s.offset.max())])
-        # Sort in case it's not sorted
-        .sort_values()
-        # Get intervals between bpm
+        pd.concat([bpms.offset, pd.Series(last)])
+        .clip(upper=last)
         .diff()
-        # Drop NA created by diff
         .dropna()
-        # Set index/axis to bpm for grouping
-        .set_axis(m.bpms.bpm)
-        # Group by the bpm
+        .set_axis(bpms.bpm)
         .groupby(level=0)
-        # Sum groups
         .sum()
-        # Get the index/axis (bpm) that is maximum
         .idxmax()
     )
